@@ -1217,3 +1217,169 @@ Proof.
   intros l H. apply Sorted_StronglySorted; [apply same_or_later_trans|].
   apply (long_chain l None H).
 Qed.
+
+(* ---------- the listeners: histories of key exchanges and NTS requests ---------- *)
+Definition erase (k : key) : key := {| k_id := k_id k; k_val := 0; k_nb := k_nb k; k_na := k_na k |}.
+Definition erase_obs (b : obs) : obs :=
+  match b with
+  | BCur g t k => BCur g t (erase k)
+  | BGet g t id r => BGet g t id (option_map erase r)
+  end.
+
+Lemma key_eqb_erase : forall a b, key_eqb a b = true -> key_eqb (erase a) (erase b) = true.
+Proof. intros a b H. apply key_eqb_eq in H. subst. apply key_eqb_eq. reflexivity. Qed.
+
+Lemma keys_compat_erase : forall a b, keys_compat a b = true -> keys_compat (erase a) (erase b) = true.
+Proof.
+  intros a b H. unfold keys_compat in *. simpl.
+  rewrite !andb_true_iff in *. destruct H as [[H1 H2] H3]. repeat split; try assumption.
+  destruct (k_id a =? k_id b); [apply key_eqb_erase; assumption | reflexivity].
+Qed.
+
+Lemma pair_ok_erase : forall a b, pair_ok a b = true -> pair_ok (erase_obs a) (erase_obs b) = true.
+Proof.
+  intros a b H. unfold pair_ok in *. rewrite !andb_true_iff in *. destruct H as [[H1 H2] H3]. repeat split.
+  - destruct a as [g t k | g t id [k|]]; destruct b as [g' t' k' | g' t' id' [k'|]]; simpl in *;
+      try reflexivity; apply keys_compat_erase; assumption.
+  - destruct a as [g t k | g t id r]; [|reflexivity].
+    destruct b as [g' t' k' | g' t' id' r']; [reflexivity|]. simpl in *.
+    destruct ((id' =? k_id k) && ((t <? t') || (g' =? g))); [|reflexivity].
+    rewrite andb_true_iff in *. destruct H2 as [Ha Hb]. split.
+    + destruct (t' <=? t + two_days); [|reflexivity].
+      destruct r' as [k''|]; simpl; [apply key_eqb_erase; assumption | discriminate].
+    + destruct (k_nb k + key_validity <? t'); [|reflexivity].
+      destruct r' as [k''|]; simpl; [discriminate | reflexivity].
+  - destruct a as [g t k | g t id r]; destruct b as [g' t' k' | g' t' id' r']; simpl in *; try reflexivity; assumption.
+Qed.
+
+Lemma obs_ok_erase : forall b, obs_ok (erase_obs b) = obs_ok b.
+Proof. intros [g t k | g t id [k|]]; reflexivity. Qed.
+
+Lemma C12_ok_erase : forall l, C12_ok l = true -> C12_ok (map erase_obs l) = true.
+Proof.
+  induction l as [|b r IH]; intros H; [reflexivity|].
+  simpl in *. rewrite !andb_true_iff in *. destruct H as [[H1 H2] H3].
+  rewrite obs_ok_erase. repeat split; [assumption | | apply IH; assumption].
+  rewrite forallb_forall in *. intros x Hx. apply in_map_iff in Hx. destruct Hx as [y [Hy1 Hy2]]. subst x.
+  apply pair_ok_erase. apply H2. assumption.
+Qed.
+
+Definition tabof (l : list key) : list (Z * Z) := map (fun k => (k_id k, k_nb k)) l.
+
+Lemma tab_find_log : forall l k, log_ok l -> In k l -> tab_find (k_id k) (tabof l) = Some (k_nb k).
+Proof.
+  induction l as [|x r IH]; intros k Hl Hin; [contradiction|].
+  simpl. destruct Hin as [Heq | Hin].
+  - subst. rewrite Z.eqb_refl. reflexivity.
+  - destruct (log_lt _ _ _ Hl Hin) as [H1 _].
+    destruct (k_id x =? k_id k) eqn:E; [apply Z.eqb_eq in E; lia|].
+    apply IH; [apply (log_tail _ _ Hl) | assumption].
+Qed.
+
+Lemma tab_find_none : forall l id, (forall k, In k l -> k_id k <> id) -> tab_find id (tabof l) = None.
+Proof.
+  induction l as [|x r IH]; intros id H; [reflexivity|].
+  simpl. destruct (k_id x =? id) eqn:E; [apply Z.eqb_eq in E; exfalso; apply (H x (or_introl eq_refl) E)|].
+  apply IH. intros k Hk. apply H. right. assumption.
+Qed.
+
+Lemma erase_wf : forall k, key_wf k -> tab_key (k_id k) (k_nb k) = erase k.
+Proof. intros k H. unfold tab_key, erase, key_wf in *. rewrite H. reflexivity. Qed.
+
+(* what Current does to the generation log: nothing, or one new key generated now *)
+Lemma current_log : forall t0 T s t k s', Inv t0 T s -> T <= t -> current s t t = Some (k, s') ->
+  Inv t0 t s' /\ In k (glog s') /\ key_wf k /\
+  ((s' = s) \/ (glog s' = k :: glog s /\ k_nb k = t /\ k_id k = cur s + 1)).
+Proof.
+  intros t0 T s t k s' H Ht Hc.
+  assert (Htt : t <= t) by lia.
+  destruct (current_step _ _ _ _ _ _ _ H Ht Htt Hc) as [Hi [Hk _]].
+  assert (Hct : cur_time s t t = t) by (unfold cur_time; destruct (need_renew s t); reflexivity).
+  rewrite Hct in Hi. split; [assumption|].
+  split; [subst k; apply (inv_head_in _ _ _ Hi)|]. split; [subst k; unfold key_wf; reflexivity|].
+  unfold current in Hc. destruct (need_renew s t) eqn:En.
+  - right. apply (need_renew_spec _ _ _ _ H Ht) in En.
+    destruct (generate_next s t) as [s1|] eqn:Eg; [|discriminate]. injection Hc as Hk2 Hs. subst s1.
+    destruct (gen_step t0 T s t s' H Ht En Eg) as [_ [Hcur [Hgen Hlog]]].
+    rewrite Hk. rewrite Hlog. split; [reflexivity|]. simpl. split; assumption.
+  - left. injection Hc as Hk2 Hs. symmetry. assumption.
+Qed.
+
+Lemma translate_cur : forall t0 T s t k s' rest, Inv t0 T s -> T <= t -> current s t t = Some (k, s') ->
+  let tab := tabof (glog s) in
+  let tab' := fold_left (tab_add t) [k_id k] tab in
+  tab' = tabof (glog s') /\
+  map (fun id => BCur 0 t (tab_key id (match tab_find id tab' with Some g => g | None => t end))) [k_id k] ++ rest
+  = erase_obs (BCur 0 t k) :: rest.
+Proof.
+  intros t0 T s t k s' rest H Ht Hc tab tab'.
+  destruct (current_log _ _ _ _ _ _ H Ht Hc) as [Hi [Hin [Hwf Hcase]]].
+  assert (Htab : tab' = tabof (glog s')).
+  { unfold tab', tab. simpl. unfold tab_add. destruct Hcase as [Heq | [Hlog [Hnb Hid]]].
+    - subst s'. rewrite (tab_find_log _ _ (inv_log _ _ _ H) Hin). reflexivity.
+    - rewrite tab_find_none.
+      + rewrite Hlog. simpl. rewrite Hnb. reflexivity.
+      + intros x Hx. destruct (inv_key_facts _ _ _ _ H Hx) as [_ [Hr _]]. lia. }
+  split; [assumption|].
+  rewrite Htab. simpl. rewrite (tab_find_log _ _ (inv_log _ _ _ Hi) Hin), (erase_wf _ Hwf). reflexivity.
+Qed.
+
+Lemma lsn_sim : forall steps t0 T s s' lo, Inv t0 T s -> lmono T steps -> lsn_run s steps = Some (s', lo) ->
+  exists ops bs, mono T ops /\ run s ops = Some (s', bs) /\
+                 lsn_translate (tabof (glog s)) lo = map erase_obs bs.
+Proof.
+  induction steps as [|st r IH]; intros t0 T s s' lo H Hm Hr.
+  - simpl in Hr. inversion Hr. exists [], []. repeat split; reflexivity.
+  - simpl in Hm. destruct Hm as [Ht Hm]. simpl in Hr.
+    destruct (lsn_step s st) as [[s1 b]|] eqn:Es; [|discriminate].
+    destruct (lsn_run s1 r) as [[s2 lo']|] eqn:Er; [|discriminate]. inversion Hr. subst s2 lo. clear Hr.
+    destruct st as [t | t kid]; simpl in Ht, Hm, Es.
+    + destruct (current s t t) as [[k sx]|] eqn:Ec; [|discriminate]. inversion Es. subst sx b. clear Es.
+      destruct (current_log _ _ _ _ _ _ H Ht Ec) as [Hi _].
+      destruct (IH _ _ _ _ _ Hi Hm Er) as [ops [bs [Hmo [Hrun Htr]]]].
+      exists (OCur 0 t t :: ops), (BCur 0 t k :: bs).
+      assert (Hct : (if need_renew s t then t else t) = t) by (destruct (need_renew s t); reflexivity).
+      split; [simpl; repeat split; try lia; assumption|].
+      split; [simpl; rewrite Ec, Hct, Hrun; reflexivity|].
+      cbn [lsn_translate app].
+      destruct (translate_cur t0 T s t k s1 (lsn_translate (fold_left (tab_add t) [k_id k] (tabof (glog s))) lo') H Ht Ec) as [Htab Heq].
+      rewrite Heq, Htab, Htr. reflexivity.
+    + destruct (get s kid t) as [k0|] eqn:Eg.
+      * destruct (current s t t) as [[k sx]|] eqn:Ec; [|discriminate]. inversion Es. subst sx b. clear Es.
+        destruct (current_log _ _ _ _ _ _ H Ht Ec) as [Hi _].
+        destruct (IH _ _ _ _ _ Hi Hm Er) as [ops [bs [Hmo [Hrun Htr]]]].
+        exists (OGet 0 kid t :: OCur 0 t t :: ops), (BGet 0 t kid (Some k0) :: BCur 0 t k :: bs).
+        assert (Hct : (if need_renew s t then t else t) = t) by (destruct (need_renew s t); reflexivity).
+        split; [simpl; repeat split; try lia; assumption|].
+        split; [simpl; rewrite Eg, Ec, Hct, Hrun; reflexivity|].
+        cbn [lsn_translate app].
+        destruct (translate_cur t0 T s t k s1 (lsn_translate (fold_left (tab_add t) [k_id k] (tabof (glog s))) lo') H Ht Ec) as [Htab Heq].
+        rewrite Heq, Htab, Htr.
+        destruct (get_spec _ _ _ _ _ _ H Eg) as [Hid [Hin [_ Hwf]]]. subst kid.
+        rewrite (tab_find_log _ _ (inv_log _ _ _ H) Hin), (erase_wf _ Hwf). reflexivity.
+      * inversion Es. subst s1 b. clear Es.
+        destruct (IH _ _ _ _ _ (inv_weaken _ _ _ _ H Ht) Hm Er) as [ops [bs [Hmo [Hrun Htr]]]].
+        exists (OGet 0 kid t :: ops), (BGet 0 t kid None :: bs).
+        split; [simpl; repeat split; try lia; assumption|].
+        split; [simpl; rewrite Eg, Hrun; reflexivity|].
+        cbn [lsn_translate app fold_left map]. rewrite Htr. reflexivity.
+Qed.
+
+Lemma lsn_model_meets_oracle : forall t0 steps s lo, lmono t0 steps ->
+  lsn_history t0 steps = Some (s, lo) -> C12_lsn_ok t0 lo = true.
+Proof.
+  intros t0 steps s lo Hm Hh. unfold lsn_history in Hh.
+  destruct (new_provider t0) as [s0|] eqn:En; [|discriminate].
+  pose proof (new_inv _ _ En) as Hi.
+  destruct (lsn_sim _ _ _ _ _ _ Hi Hm Hh) as [ops [bs [Hmo [Hrun Htr]]]].
+  assert (Htab : tabof (glog s0) = [(1, t0)]).
+  { unfold new_provider, generate_next in En. change (cur empty_state =? max_int) with false in En.
+    cbv iota in En. inversion En. reflexivity. }
+  unfold C12_lsn_ok. rewrite <- Htab, Htr. apply C12_ok_erase. apply (run_ok _ _ _ _ _ _ Hi Hmo Hrun).
+Qed.
+
+Lemma lmonob_spec : forall l t, lmonob t l = true <-> lmono t l.
+Proof.
+  induction l as [|st r IH]; simpl; intros t; [tauto|].
+  rewrite andb_true_iff, Z.leb_le, IH. tauto.
+Qed.
